@@ -252,7 +252,7 @@ def C05(run):
     interptrace(run)
 
 
-def clitrace(run, fams):
+def clitrace(run, fams, only=None):
     """Record runs of the built rrss binary on TLC-generated programs and validate every observation against CliTrace.tla."""
     import subprocess
     cases = run.path('cli_cases.txt')
@@ -263,7 +263,13 @@ def clitrace(run, fams):
             run.add_tlc('cli-corpus-' + fam, res)
             n = 0
             for l in open(o, errors='replace'):
-                if l.startswith('<<"R"') and '~' not in l and '^' not in l and '|' not in l and n < limit:
+                if not l.startswith('<<"R", ') or n >= limit or (only is not None and not only(l)):
+                    continue
+                try:
+                    text = json.loads(json.loads(l.strip()[len('<<"R", '):-2]))['text']
+                except Exception:
+                    continue
+                if not any(ch in text for ch in '~^|%$@`#'):      # ASCII programs only (TLC prints the place-holders, not the characters)
                     out.write(l)
                     n += 1
             os.remove(o)
@@ -394,8 +400,11 @@ def C18(run):
     run.rule = ('every assignment form x right-hand side of the family (constants incl. 0, fractions, negatives, -0, inf, NaN, strings with '
                 'blanks / line breaks, non-constants, list operands) at several nesting depths; the linter\'s report must equal the model\'s '
                 '(line, target, value, suggestion text) and every suggested line is parsed and run by the real front end and interpreter and '
-                'must give the target the reported value; non-trivial = at least one diagnostic')
+                'must give the target the reported value; non-trivial = at least one diagnostic; plus family lint-as-text: programs '
+                'with constant assignments at every depth rendered by Grammar.tla under 10 tapes x 3 namings (one tape puts a comment '
+                'spanning three line breaks between all tokens): the report of the real front end + linter must name the physical lines')
     lintjob(run, 'lint', 'lint')
+    grammar(run, 'lint', family='e2e')
 
 
 def C19(run):
@@ -403,8 +412,9 @@ def C19(run):
                 '(thorough: triples) of 19 mention-order statements must equal the model; TLC checks sortedness, tie order and the repeated-'
                 'identifier definition on the model; the program must be unchanged and the linter must not panic')
     lintjob(run, 'lint', 'lint')
+    grammar(run, 'lint', family='e2e')          # reports on rendered programs: physical line numbers behind multi-line comments
     if run.tier == 'thorough':
-        grammar(run, 'e2e', family='e2e')       # reports on rendered programs: physical line numbers, real mention spellings
+        grammar(run, 'e2e', family='e2e')       # all interpreter families as text, real mention spellings
 
 
 def C02(run):
@@ -435,8 +445,12 @@ def C11(run):
                 'long integer and fraction parts (15-22 words), in assignments and after `rock .. like`, each under every one-choice spelling '
                 'variation; poetic strings with blanks, punctuation, closed quotes and parentheses. The parsed literal must have exactly the '
                 'elements, its value must be the numeral that Poetic.tla\'s digits spell (exact below 2^53, 4 ulp otherwise) and the interpreter '
-                'must assign it. Expression admission (literal word / negative number first) is covered by the stmt family of C02.')
+                'must assign it. Expression admission (literal word / negative number first) is covered by the stmt family of C02. The '
+                'poetic-string programs are also run through the built binary (CliTrace.tla).')
     grammar(run, 'poetic', family='poetic')
+    # the same poetic strings through the command-line tool: what `rrss exec FILE` prints is what the library prints (text taken
+    # verbatim up to the end of the line, trailing blanks included)
+    clitrace(run, (('poetic', 400),), only=lambda l: 'pstr' in l)
 
 
 def C13(run):
